@@ -34,6 +34,12 @@ def run(ctx, rep):
     r3(prog, ev, rep)
     r4(prog, ev, rep)
     r5(prog, ev, rep)
+    r6(ctx, prog, ev, rep)
+    from rules import c11
+    c11.shared_walk_rule(prog, ev, rep, "C01-R7",
+                         "slice and index selectors contribute precisely their RFC-defined elements: the walk of each slice direction and the "
+                         "index selector's guards agree with RFC 9535 2.3.4.2.2 / 2.3.3.2 for every (len, start, end, step) -- the region "
+                         "analysis of C11-R6, shared")
     if ctx.tier == "thorough":
         from vflib import witness
         witness.report(rep, "C01-W", ['W1', 'W1b'], "compile_fail witnesses: a result (with or without path) cannot outlive the document")
@@ -233,7 +239,7 @@ def r2(prog, ev, rep):
 # ------------------------------------------------------------------------------------------- R3
 def r3(prog, ev, rep):
     rep.rule("C01-R3", "children come from the current node: at each child construction the container read (as_array/as_object/"
-             "get) is applied to the `inner` of the same pointer whose `path` is extended", floor=9)
+             "get) is applied to the `inner` of the same pointer whose `path` is extended; Pointer::key / Pointer::idx extend the path on every result", floor=11)
     sites = collect_sites(prog, ev)
     seen = set()
     for p, c in sites:
@@ -257,6 +263,58 @@ def r3(prog, ev, rep):
             rep.unrecognised("C01-R3", k, c.loc(), "child `%s` is not obtained through a Queryable accessor" % e); continue
         rep.check(P2 is not None and P2 == src, "C01-R3", k, c.loc(), "child of the node whose path is extended",
                   "child is read from `%s` but the path of `%s` is extended" % (src, path))
+
+
+    # the two child constructors always extend the parent's path: no result alternative keeps or resets it
+    for cname in ("key", "idx"):
+        try:
+            cp = prog.inherent_method("crate::query::state::Pointer", cname)
+        except Exception:
+            rep.unrecognised("C01-R3", "Pointer::%s/extends" % cname, "-", "constructor not found"); continue
+        t = ev.summary(cp)
+        leaves = []
+        stack = [t]
+        while stack:
+            x = stack.pop()
+            if x.k == "phi":
+                stack.extend(x.a)
+            elif x.k == "if":
+                stack.extend([x.a[1], x.a[2]])
+            elif x.k == "match":
+                stack.extend(b for _, _, b in x.a[1])
+            elif not (x.k == "opaque" and x.a[0] == "never"):
+                leaves.append(x)
+        bad = []
+        for lf in leaves:
+            ok = False
+            if lf.k == "adt" and lf.a[1] == "Pointer":
+                pt = dict(lf.a[2]).get("path")
+                pstack = [pt]
+                oks = []
+                while pstack:
+                    y = pstack.pop()
+                    if y is None:
+                        oks.append(False)
+                    elif y.k in ("phi",):
+                        pstack.extend(y.a)
+                    elif y.k == "if":
+                        pstack.extend([y.a[1], y.a[2]])
+                    elif y.k == "match":
+                        pstack.extend(b for _, _, b in y.a[1])
+                    else:
+                        good = y.k == "call" and y.a[0] == "<format>" and len(y.a[1].a[1]) >= 2 and y.a[1].a[1][0] == ("arg", 0, False) \
+                            and any(pc[0] == "lit" and "[" in pc[1] for pc in y.a[1].a[1])
+                        if good:
+                            a0 = y.a[2]
+                            a0 = a0.a[1] if a0.k == "call" and a0.a[0].startswith("<fmtarg") else a0
+                            good = a0.k == "param" and a0.a[0] == 1
+                        oks.append(good)
+                ok = bool(oks) and all(oks)
+            if not ok:
+                bad.append(str(lf)[:120])
+        rep.check(not bad, "C01-R3", "Pointer::%s/extends" % cname, prog.loc_of(cp), "path = parent path + one step on every result",
+                  "Pointer::%s does not always extend its parent's path (`%s`): a child then carries its parent's (or the empty `@`) path, "
+                  "so it is mistaken for the node under test in nested filters and reported under a wrong location" % (cname, "; ".join(bad)))
 
 
 # ------------------------------------------------------------------------------------------- R4
@@ -318,3 +376,70 @@ def r5(prog, ev, rep):
         rep.bad("C01-R5", "no-escape-decoder", "src/query/selector.rs",
                 "no function reachable from js_path converts hex digits and builds a char: `\\uXXXX` (and `\\n`, `\\t`, ...) in name "
                 "selectors and string literals are never decoded, so `$['\\u0041']` does not select member `A`")
+
+
+# ------------------------------------------------------------------------------------------- R6
+def _overlap(r1, p2):
+    """can text inserted by a first replacement (r1) take part in a NEW match of the second pattern (p2)?"""
+    if not r1 or not p2:
+        return False
+    if r1 in p2 or p2 in r1:
+        return True
+    for k in range(1, min(len(r1), len(p2))):
+        if r1[-k:] == p2[:k] or r1[:k] == p2[-k:]:
+            return True
+    return False
+
+
+def r6(ctx, prog, ev, rep):
+    rep.rule("C01-R6", "selector text is rewritten in ONE left-to-right pass: no chain `s.replace(p1, r1).replace(p2, r2)` on the way "
+             "to a member lookup / comparison in which text produced by the first replacement can form a match of the second "
+             "(`\\\\/` -> `\\/` -> `/`): such a chain decodes some escaped names to a different member")
+    evalr, _ = prog.evaluator()
+    tops = sorted(p for p in evalr if "::{closure#" not in p and not prog.is_expansion(p))
+    n = 0
+    seen = set()
+    REPL = ("alloc::str::<impl str>::replace", "alloc::str::<impl str>::replacen")
+
+    def recv(x):
+        while x.k == "call" and len(x.a) == 2 and x.a[0].rsplit("::", 1)[-1] in ("as_str", "deref", "as_ref", "borrow", "to_string", "to_owned", "clone"):
+            x = x.a[1]
+        return x
+    for p in tops:
+        t, trace, conds = ev.traced(p)
+        for c in trace:
+            if c.k == "call" and c.a[0] in REPL and len(c.a) >= 4 and id(c.n) not in seen:
+                seen.add(id(c.n))
+                n += 1
+                inner = recv(c.a[1])
+                if inner.k == "call" and inner.a[0] in REPL and len(inner.a) >= 4:
+                    r1, p2 = inner.a[3], c.a[2]
+                    if r1.k == "lit" and p2.k == "lit":
+                        hazard = _overlap(str(r1.a[1]), str(p2.a[1])) and inner.a[2] != inner.a[3]
+                        rep.check(not hazard, "C01-R6", "%s|replace-chain" % shared_rk(prog, ev, p), T.loc(c.n) if c.n else prog.loc_of(p),
+                                  "replacement %r cannot form pattern %r" % (r1.a[1], p2.a[1]),
+                                  "two-pass rewriting: text produced by `.replace(%r, %r)` can form a new match of the following `.replace(%r, ..)`; "
+                                  "an escaped sequence is decoded twice (a single left-to-right scan is needed)" % (inner.a[2].a[1] if inner.a[2].k == "lit" else "?", r1.a[1], p2.a[1]))
+                    else:
+                        rep.unrecognised("C01-R6", "%s|replace-chain" % shared_rk(prog, ev, p), prog.loc_of(p), "replace chain with non-literal patterns")
+    rep.ok("C01-R6", "census", "-", "%d str::replace sites in %d evaluator functions examined" % (n, len(tops)))
+    # controls: the fixture's hazardous chain is flagged, its harmless chain is not
+    fx = ctx.fixture
+    fev = Evaluator(fx)
+    res = {}
+    for name in ("crate::c01_replace_chain", "crate::c01_replace_chain_ok"):
+        res[name] = None
+        if name in fx.bodies:
+            t, trace, _ = fev.traced(name)
+            for c in trace:
+                if c.k == "call" and c.a[0] in REPL and len(c.a) >= 4:
+                    inner = recv(c.a[1])
+                    if inner.k == "call" and inner.a[0] in REPL and inner.a[3].k == "lit" and c.a[2].k == "lit":
+                        res[name] = _overlap(str(inner.a[3].a[1]), str(c.a[2].a[1]))
+    rep.control("C01-R6", res.get("crate::c01_replace_chain") is True and res.get("crate::c01_replace_chain_ok") is False,
+                "fixture two-pass rewrite flagged, JSON-Pointer style chain not flagged")
+
+
+def shared_rk(prog, ev, p):
+    from rules import shared
+    return shared.rk(prog, ev, p)
